@@ -45,7 +45,14 @@ impl Check for Simple {
         }
     }
     fn run_job(&self, rng: &mut Rng, tier: Tier, job: u64, ctx: &mut JobCtx<'_>) {
-        let plan = (self.gen)(rng, tier, job);
+        // one job in six runs the all-features conversation instead of the property's own
+        // generator (judged with the same owned rules): see gen/sink.rs
+        let plan = if job % 6 == 5 {
+            ctx.stats.bump("probe.kitchen_sink_runs", 1);
+            super::sink::gen_sink(rng, tier, job)
+        } else {
+            (self.gen)(rng, tier, job)
+        };
         ctx.eval(&plan);
     }
     fn owns(&self, rule: &str) -> bool {
@@ -646,6 +653,10 @@ pub fn c02() -> Simple {
 
 // ------------------------------------------------------------------------------------------
 // C03 — exactly one complete conformant response per command
+
+pub fn add_contradiction_pub(r: &mut Rng, p: &mut Program, binary: bool) -> bool {
+    add_contradiction(r, p, binary)
+}
 
 fn add_contradiction(r: &mut Rng, p: &mut Program, binary: bool) -> bool {
     // choose a Rows unit with >=1 column and >=1 row, explicit row ending
